@@ -123,7 +123,6 @@ C14_VALUES = [
     _v("range(3)", "range", True, "container"),
     _v("bytearray(b'x')", "bytearray", True, "container"),
     _v("...", "ellipsis", True, "object", "k_ellipsis"),
-    _v("NotImplemented", "NotImplementedType", True, "object"),
     _v("len", "builtin_function", True, "object", instance=False),
     _v("int", "type", True, "object", instance=False),
     # nested / heterogeneous containers
@@ -242,49 +241,60 @@ C02_TYPING_IMPORT = (
     "Iterator, List, Mapping, Optional, Sequence, Set, Sized, SupportsAbs, SupportsInt, "
     "Tuple, Type, Union)\n")
 
-# (expression, group).  Every element of a container value is itself a listed
-# value (C02 localises a disagreement on a container to one on its elements).
-C02_VALUES = [
+# (expression, group, in_quick).  Every element of a container value is itself
+# a listed value up to class (C02 localises a disagreement on a container to one
+# on its elements by the class of the element).
+C02_VALUES_ALL = [
     # scalars
-    ("1", "scalar"), ("True", "scalar"), ("1.5", "scalar"), ("2j", "scalar"),
-    ("'s'", "scalar"), ("b'b'", "scalar"), ("None", "none"),
+    ("1", "scalar", 1), ("True", "scalar", 1), ("1.5", "scalar", 1), ("2j", "scalar", 1),
+    ("'s'", "scalar", 1), ("b'b'", "scalar", 1), ("None", "none", 1),
+    ("bytearray(b'x')", "scalar", 1),
     # instances
-    ("A()", "inst"), ("B()", "inst"), ("C()", "inst"), ("D()", "inst"),
-    ("S()", "inst"), ("U()", "inst"), ("object()", "inst"),
+    ("A()", "inst", 1), ("B()", "inst", 1), ("C()", "inst", 1), ("D()", "inst", 1),
+    ("S()", "inst", 1), ("U()", "inst", 1), ("object()", "inst", 1),
     # classes
-    ("A", "class"), ("B", "class"), ("C", "class"), ("D", "class"),
-    ("int", "class"), ("bool", "class"), ("str", "class"), ("object", "class"),
+    ("A", "class", 1), ("B", "class", 1), ("C", "class", 0), ("D", "class", 1),
+    ("int", "class", 1), ("bool", "class", 1), ("str", "class", 0), ("object", "class", 0),
     # empty containers
-    ("[]", "empty"), ("()", "empty"), ("{}", "empty"), ("set()", "empty"),
-    ("frozenset()", "empty"),
+    ("[]", "empty", 1), ("()", "empty", 1), ("{}", "empty", 1), ("set()", "empty", 1),
+    ("frozenset()", "empty", 1),
     # homogeneous containers
-    ("[1]", "homo"), ("[1, 2]", "homo"), ("['s']", "homo"), ("[1.5]", "homo"),
-    ("[True]", "homo"), ("[None]", "homo"), ("[A()]", "homo"), ("[B()]", "homo"),
-    ("(1,)", "homo"), ("(1, 2)", "homo"), ("('s', 's')", "homo"), ("(1, 2, 3)", "homo"),
-    ("(B(), D())", "homo"),
-    ("{1}", "homo"), ("{'s'}", "homo"), ("frozenset({1})", "homo"),
-    ("{1: 's'}", "homo"), ("{'s': 1}", "homo"), ("{1: 2}", "homo"), ("{'s': A()}", "homo"),
+    ("[1]", "homo", 1), ("[1, 2]", "homo", 0), ("['s']", "homo", 1), ("[1.5]", "homo", 1),
+    ("[True]", "homo", 0), ("[None]", "homo", 1), ("[A()]", "homo", 1), ("[B()]", "homo", 1),
+    ("(1,)", "homo", 1), ("(1, 2)", "homo", 1), ("('s', 's')", "homo", 0),
+    ("(1, 2, 3)", "homo", 1), ("(B(), D())", "homo", 1),
+    ("{1}", "homo", 1), ("{'s'}", "homo", 0), ("frozenset({1})", "homo", 1),
+    ("{1: 's'}", "homo", 1), ("{'s': 1}", "homo", 1), ("{1: 2}", "homo", 1),
+    ("{'s': A()}", "homo", 0),
     # heterogeneous containers
-    ("[1, 's']", "hetero"), ("[1, None]", "hetero"), ("[1, 1.5]", "hetero"),
-    ("[A(), C()]", "hetero"), ("[A(), B()]", "hetero"),
-    ("(1, 's')", "hetero"), ("('s', 1)", "hetero"), ("(1, None)", "hetero"),
-    ("(A(), 1)", "hetero"), ("(1, 's', 1.5)", "hetero"),
-    ("{1, 's'}", "hetero"), ("frozenset({1, 's'})", "hetero"),
-    ("{1: 's', 's': 1}", "hetero"), ("{1: 2, 's': 2}", "hetero"), ("{1: 2, 2: 's'}", "hetero"),
+    ("[1, 's']", "hetero", 1), ("[1, None]", "hetero", 1), ("[1, 1.5]", "hetero", 1),
+    ("[A(), C()]", "hetero", 1), ("[A(), B()]", "hetero", 1),
+    ("(1, 's')", "hetero", 1), ("('s', 1)", "hetero", 1), ("(1, None)", "hetero", 1),
+    ("(A(), 1)", "hetero", 0), ("(1, 's', 1.5)", "hetero", 1),
+    ("{1, 's'}", "hetero", 1), ("frozenset({1, 's'})", "hetero", 1),
+    ("{1: 's', 's': 1}", "hetero", 1), ("{1: 2, 's': 2}", "hetero", 1),
+    ("{1: 2, 2: 's'}", "hetero", 1),
     # nested
-    ("[[1]]", "nested"), ("[[1, 's']]", "nested"), ("[(1, 's')]", "nested"),
-    ("([1], [1])", "nested"), ("{'s': [1]}", "nested"), ("{1: (1, 's')}", "nested"),
-    ("[[]]", "nested"), ("([1], 's')", "nested"),
+    ("[[1]]", "nested", 1), ("[[1, 's']]", "nested", 1), ("[(1, 's')]", "nested", 1),
+    ("([1], [1])", "nested", 1), ("{'s': [1]}", "nested", 1), ("{1: (1, 's')}", "nested", 0),
+    ("[[]]", "nested", 0), ("([1], 's')", "nested", 0),
     # functions / lambdas / builtins
-    ("fn", "callable"), ("fn0", "callable"), ("(lambda: 1)", "callable"),
-    ("(lambda x: x)", "callable"), ("len", "callable"), ("A().__init__", "callable"),
-    # iterators / ranges / misc
-    ("iter([1])", "iter"), ("iter(['s'])", "iter"), ("gen()", "iter"),
-    ("range(3)", "range"), ("bytearray(b'x')", "scalar"),
+    ("fn", "callable", 1), ("fn0", "callable", 0), ("(lambda: 1)", "callable", 1),
+    ("(lambda x: x)", "callable", 0), ("len", "callable", 1), ("A().__init__", "callable", 1),
+    # iterators / ranges
+    ("iter([1])", "iter", 1), ("iter(['s'])", "iter", 0), ("gen()", "iter", 1),
+    ("range(3)", "range", 1),
 ]
+
+
+def c02_values(tier):
+  return [v for v, _, q in C02_VALUES_ALL if q or tier != "quick"]
+
 
 C02_LEAVES = ["int", "float", "complex", "str", "bytes", "bool", "None", "object", "Any",
               "A", "B", "C", "D"]
+# leaves put under unary constructors in the quick tier
+C02_LEAVES_QUICK = ["int", "float", "str", "bool", "None", "object", "Any", "A", "B"]
 C02_BARE = ["list", "dict", "tuple", "type", "Hashable", "Sized", "SupportsInt", "SupportsAbs",
             "Callable[..., Any]", "Tuple[()]"]
 C02_UNARY = ["Optional", "List", "Set", "FrozenSet", "Sequence", "Iterable", "Collection",
@@ -300,30 +310,33 @@ def _un(form, t):
 
 # pairs of leaves used for binary constructors at depth 1 (a full square would
 # be 169 per constructor; these cover same/different/subclass/promotion/top)
-C02_PAIRS = [("int", "str"), ("str", "int"), ("int", "int"), ("int", "float"), ("bool", "str"),
-             ("str", "A"), ("A", "C"), ("B", "C"), ("int", "None"), ("str", "Any"),
-             ("object", "int"), ("float", "complex"), ("bytes", "str"), ("A", "B")]
+C02_PAIRS = [("int", "str"), ("str", "int"), ("int", "float"), ("bool", "str"),
+             ("str", "A"), ("A", "C"), ("int", "None"), ("object", "int"),
+             # thorough only from here
+             ("int", "int"), ("B", "C"), ("str", "Any"), ("float", "complex"), ("bytes", "str"),
+             ("A", "B")]
+C02_PAIRS_QUICK = 8
 
 
-def c02_annotations(depth: int):
-  """Depth-bounded annotation texts.  depth 0 = leaves+bare, 1 = one constructor."""
+def c02_annotations(tier: str):
+  """Depth-bounded annotation texts: quick = depth <= 1 over a leaf subset,
+  thorough = depth <= 1 over all leaves plus depth 2."""
+  quick = tier == "quick"
   d0 = list(C02_LEAVES) + list(C02_BARE)
-  if depth == 0:
-    return d0
   d1 = []
   for form in C02_UNARY:
-    for t in C02_LEAVES:
+    for t in (C02_LEAVES_QUICK if quick else C02_LEAVES):
       if form == "Type" and t == "None":
         continue
       if form == "Optional" and t in ("None",):
         continue
       d1.append(_un(form, t))
   for form in C02_BINARY:
-    for a, b in C02_PAIRS:
+    for a, b in (C02_PAIRS[:C02_PAIRS_QUICK] if quick else C02_PAIRS):
       if form.startswith("Union") and a == b:
         continue
       d1.append(form.format(a, b))
-  if depth == 1:
+  if quick:
     return d0 + d1
   # depth 2: constructors over a selection of depth-1 annotations
   inner = [
